@@ -15,11 +15,12 @@ SRC = 'C03/h_cv.cpp'
 def jobs(tier):
     q = tier == 'quick'
     J = []
-    J.append(kjob('cv_spin_1w_one', SRC, 2, 4, ['USE_SPINLOCK'], desc='spinlock: 1 waiter, notify_one', timeout=900, unwind=3, mem_gb=16))
-    J.append(kjob('cv_mutex_1w_one', SRC, 2, 6, ['YIELD_HOLDING'], desc='mutex: 1 waiter, notify_one, notifier may keep the lock across a yield (contended re-lock)', timeout=1200, unwind=3, mem_gb=20))
+    J.append(kjob('cv_spin_1w_one', SRC, 2, 4, ['USE_SPINLOCK'], desc='spinlock: 1 waiter, notify_one', timeout=900, unwind=3, mem_gb=6))
+    J.append(kjob('cv_mutex_1w_one', SRC, 2, 6, ['YIELD_HOLDING'], desc='mutex: 1 waiter, notify_one, notifier may keep the lock across a yield (contended re-lock)', timeout=900, unwind=3, mem_gb=8))
+    J.append(kjob('cv_spin_2w_all', SRC, 3, 6, ['USE_SPINLOCK', 'TWO_WAITERS', 'NOTIFY_ALL'], desc='spinlock: 2 waiters, notify_all', timeout=900, unwind=4, mem_gb=8))
+    J.append(kjob('cv_spin_2w_one', SRC, 3, 6, ['USE_SPINLOCK', 'TWO_WAITERS'], desc='spinlock: 2 waiters, notify_one', timeout=900, unwind=4, mem_gb=8))
+    J.append(kjob('cv_mutex_2w_all', SRC, 3, 7, ['TWO_WAITERS', 'NOTIFY_ALL'], desc='mutex: 2 waiters, notify_all', timeout=1200, unwind=4, mem_gb=10))
     if not q:
-        J.append(kjob('cv_spin_2w_all', SRC, 3, 6, ['USE_SPINLOCK', 'TWO_WAITERS', 'NOTIFY_ALL'], desc='spinlock: 2 waiters, notify_all', timeout=3000, unwind=4, mem_gb=30))
-        J.append(kjob('cv_mutex_2w_all', SRC, 3, 7, ['TWO_WAITERS', 'NOTIFY_ALL'], desc='mutex: 2 waiters, notify_all', timeout=5000, unwind=4, mem_gb=40))
-        J.append(kjob('cv_spin_2w_one', SRC, 3, 6, ['USE_SPINLOCK', 'TWO_WAITERS'], desc='spinlock: 2 waiters, notify_one', timeout=5000, unwind=4, mem_gb=30))
+        J.append(kjob('cv_mutex_2w_one_yh', SRC, 3, 8, ['TWO_WAITERS', 'YIELD_HOLDING'], desc='mutex: 2 waiters, notify_one, notifier may yield holding the lock', timeout=3000, unwind=4, mem_gb=16))
     for j in J: j.cbmc += ['-DVERIF_STUCK_IS_LEGAL']
     return J
